@@ -1,21 +1,33 @@
 (* Pins_C03.v — the statements of Props_C03.v, pinned. *)
-From FV Require Import Base ListLib GroupModel GroupProofs GroupProofs2 GroupProofs3 GroupProofs4 GroupWitness Props_C03.
+From FV Require Import Base ListLib GroupModel GroupProofs GroupProofs2 GroupProofs3 GroupProofs4 GroupProofs5 GroupWitness Props_C03.
 Open Scope N_scope.
-Check C03_partition_partial_except_K11 :
+Check C03_partition :
   forall (H : list N -> hash) (T : list N -> option (list N)) (c : gcfg) (n : nd) (scanned : list file),
     wf_nd n -> (forall st f, fails n st f = false) ->
     wf_ids scanned -> wf_len scanned -> wf_paths scanned ->
-    collision_free H c scanned -> ~ K11 c scanned -> transform c = false -> skip_content c = false ->
+    collision_free H c scanned -> transform c = false -> skip_content c = false ->
     let out := group_files H T c n scanned in
     (NoDup (all_files out) /\ forall f, In f (all_files out) -> ok c scanned f) /\
     (forall g f f', In g out -> In f (gfiles g) -> ok c scanned f' -> fdata f' = fdata f -> In f' (gfiles g)) /\
     (forall g g' f f', In g out -> In g' out -> In f (gfiles g) -> In f' (gfiles g') -> fdata f = fdata f' -> g = g') /\
     (forall f, ok c scanned f -> qualifies c scanned f -> exists g, In g out /\ In f (gfiles g)).
-Check C03_K11_witness :
-  exists (H : list N -> hash) (T : list N -> option (list N)) (c : gcfg) (n : nd) (scanned : list file),
-    wf_nd n /\ (forall st f, fails n st f = false) /\ wf_ids scanned /\ wf_len scanned /\ wf_paths scanned /\
-    collision_free H c scanned /\ skip_content c = false /\ transform c = false /\ K11 c scanned /\
-    exists f, ok c scanned f /\ qualifies c scanned f /\ ~ exists g, In g (group_files H T c n scanned) /\ In f (gfiles g).
+Check C03_partition_transform :
+  forall (H : list N -> hash) (T : list N -> option (list N)) (c : gcfg) (n : nd) (scanned : list file),
+    wf_nd n -> (forall st f, fails n st f = false) ->
+    wf_ids scanned -> wf_paths scanned -> collision_free_T H T scanned -> transform c = true ->
+    let out := group_files H T c n scanned in
+    (NoDup (all_files out) /\
+     forall g f, In g out -> In f (gfiles g) ->
+       exists f0, ok' c scanned f0 /\ hasT T f0 = true /\ f = set_len f0 (glen g) /\ glen g = tlen T f0) /\
+    (forall g f0 f0', In g out -> In (tfile T f0) (gfiles g) -> ok' c scanned f0 -> ok' c scanned f0' ->
+                      T (fdata f0') = T (fdata f0) -> In (tfile T f0') (gfiles g)) /\
+    (forall g g' f0 f0', In g out -> In g' out -> ok' c scanned f0 -> ok' c scanned f0' ->
+                         In (tfile T f0) (gfiles g) -> In (tfile T f0') (gfiles g') ->
+                         T (fdata f0) = T (fdata f0') -> g = g') /\
+    (forall f0, ok' c scanned f0 -> hasT T f0 = true ->
+       ((exists g, In g out /\ In (tfile T f0) (gfiles g)) <-> qualifiesT T c scanned f0)) /\
+    (forall g f0 cl, In g out -> ok' c scanned f0 -> In (tfile T f0) (gfiles g) -> is_classT T c scanned f0 cl ->
+       Permutation.Permutation (gfiles g) (map (tfile T) cl)).
 Check C03_filter_monotone :
   forall (c : gcfg) (fs fs' : list file), NoDup fs -> incl fs fs' -> subgroup_count c fs <= subgroup_count c fs'.
 Check C03_deduplicate :
@@ -26,3 +38,9 @@ Check (eq_refl : is_class = fun c scanned f cl => NoDup cl /\ forall x, In x cl 
 Check (eq_refl : qualifies = fun c scanned f =>
          exists cl, is_class c scanned f cl /\ matches_strictly c (mkgroup 0 [] cl) = true).
 Check (eq_refl : wf_paths = fun fs => forall f f', In f fs -> In f' fs -> fpath f = fpath f' -> f = f').
+Check (eq_refl : tfile = fun T f => set_len f (tlen T f)).
+Check (eq_refl : tlen = fun T f => match T (fdata f) with Some out => N.of_nat (length out) | None => 0 end).
+Check (eq_refl : hasT = fun T f => match T (fdata f) with Some _ => true | None => false end).
+Check (eq_refl : is_classT = fun T c scanned f0 cl => NoDup cl /\ forall x, In x cl <-> ok' c scanned x /\ T (fdata x) = T (fdata f0)).
+Check (eq_refl : qualifiesT = fun T c scanned f0 =>
+         exists cl, is_classT T c scanned f0 cl /\ matches_strictly c (mkgroup 0 [] cl) = true).
